@@ -33,6 +33,7 @@ import (
 	"path/filepath"
 	"strings"
 	"sync/atomic"
+	"syscall"
 	"time"
 
 	pvm "github.com/gnolang/gno/tm2/pkg/bft/privval"
@@ -309,6 +310,11 @@ func (s *psim) sign(t *tl, q req, sigMode int) (out string, detail string) {
 			}
 		}
 		s.r.Probe("refused:" + cls)
+		if q.at.cmp(issuedBefore) > 0 {
+			// not a C34 matter (C34 is pure safety), but a validator that refuses a
+			// request above everything it was ever asked is not exercising anything
+			s.r.Probe("fresh_request_above_all_refused")
+		}
 		if t.released != nil && q.at.cmp(t.maxIssued) == 0 && issuedBefore == q.at && !t.hasRelAt(q.at) && cls == "same_HRS_with_conflicting_data" {
 			s.r.Probe("conflict_with_persisted_but_unreleased_signature_refused")
 		}
@@ -411,6 +417,15 @@ func (s *psim) replayAtomicWrite(dir string, old, nw []byte, img int, cut int) {
 	if err := os.Rename(tmp, path); err != nil { // step 4: rename
 		kernel.Harnessf("rename: %v", err)
 	}
+}
+
+func inode(path string) uint64 {
+	if fi, err := os.Stat(path); err == nil {
+		if st, ok := fi.Sys().(*syscall.Stat_t); ok {
+			return st.Ino
+		}
+	}
+	return 0
 }
 
 func readOrNil(path string) []byte {
@@ -662,10 +677,18 @@ func runPrivval(c *kernel.Choices, p kernel.Params) *kernel.Result {
 			}
 		case 3: // crash during the save: enumerate every image WriteFileAtomic can leave
 			old := readOrNil(main.path)
+			inoBefore := inode(main.path)
 			snap := s.clone(main, "pre") // oracle memory before the call
 			os.RemoveAll(snap.dir)
 			out, det := s.sign(main, q, sigNormal)
 			nw := readOrNil(main.path)
+			if out == "released" && !bytes.Equal(old, nw) {
+				if ino := inode(main.path); ino != 0 && ino != inoBefore {
+					s.r.Probe("state_file_replaced_by_rename")
+				} else {
+					s.r.Probe("state_file_rewritten_in_place")
+				}
+			}
 			if out != "released" || bytes.Equal(old, nw) {
 				// nothing was saved: no crash point exists inside this call
 				c.Event("%v [crash-in-save armed, no save happened] -> %s %s", q, out, det)
